@@ -184,6 +184,15 @@ def run(chk):
     corpus = ["chain 0 65532 i pi", "chain 0 65535 c ip", "chain 1 0 c pd", "chain 1 0 st dp", "chain 0 null i pi", "chain 0 null i [5", "chain 0 65532 c cst afp", "chain 0 null st afl", "chain 1 null pp [3 ld", "chain 0 65520 i ae4", "chain 0 65520 i ae3 +1", "chain 1 16 c ae5"]
     ops = corpus + list(dict.fromkeys(ops))
     res = core.differential(chk, ops, binp, oracle, signature=signature, label="pointer derivations")
+    # granting access: a backend that declares can_grant_deny_access and grants, refuses with the caller's pointer, or refuses
+    # with null -- the tainted pointer the application gets designates sandbox memory in every case (range engine)
+    from checks import c10
+    rbin, rlog = c10.build()
+    if rbin is None:
+        chk.fail("harness h_range does not compile against the current headers", {"log_tail": rlog[-3000:]}, found=False)
+    else:
+        gops = [f"grantg {mode} {el} app:{o} {c}" for mode in (0, 1, 2) for el in ("char", "short", "double") for o in (64, 4099) for c in (1, 3, 64)]
+        core.differential(chk, gops, rbin, c10.oracle, label="grant-access results")
     blocks = sum(8192 for o in ops if o.startswith("repblk"))
     chk.cov["evaluations"] += blocks
     outcomes = {}
